@@ -16,7 +16,8 @@ out = ["# Seeded changes", "",
 "resource optimisations (`optimise`: caches, pooled or reused buffers, narrowed critical sections, shared timers); round 7",
 "(`C??-r7-<name>`) for clean-ups of error handling and resource management (`cleanup`); round 8 (`C??-r8-<name>`) for",
 "changes to how work is ordered or shared between goroutines (`concurrency`); round 9 (`C??-r9-<name>`) for changes in",
-"arithmetic and boundaries (`arithmetic`: comparison direction, off-by-one, unit and clock-base mix-ups, integer width). A change that an agent of a later round made again is not stored twice;",
+"arithmetic and boundaries (`arithmetic`: comparison direction, off-by-one, unit and clock-base mix-ups, integer width); round 10 (`C??-r10-<name>`)",
+"for changes to what a peer observes on the wire or in a record (`surface`: status codes, headers, body shapes, exact versus normalised comparisons). A change that an agent of a later round made again is not stored twice;",
 "`also_produced_for` in the meta.json of the stored one records it.", "",
 "Files: `patch.diff` (the change), `demo/` (the agent's demonstration test, to be copied over a worktree that has the",
 "patch applied), `meta.json` (summary, what the change needs to manifest, how it was verified, which check reports it).", "",
